@@ -20,21 +20,26 @@ PROPERTY = 'C17'
 LEVEL = 'exploration'
 EXHAUSTIVE = True
 RULE = ('Exhaustive product of: platform {default,P} x package default environment {undefined, on default, on P, on '
-        'both; with/without DEFAULTS} x launch environment {rich, sparse, bare} x system variables {none, two} x '
-        'named-environment definition {8 default-platform layer templates (absent, literals, own/cross-layer/launch/'
+        'both; with/without DEFAULTS; defined but EMPTY on the default layer, on the P layer, on either layer of both} x launch environment {rich, sparse, bare} x system variables {none, two} x '
+        'named-environment definition {9 default-platform layer templates (absent, defined-but-empty, literals, own/cross-layer/launch/'
         'undefined references, DEFAULTS naming present / absent / mixed launch variables, self-reference idiom, '
         'declared+imported variables whose values reference other declared+imported variables that the launch '
         'environment also defines (listed earlier and later in DEFAULTS; also in the package default environment), '
-        '%(global)s and system-variable references)} x {6 P-platform layer templates (absent, overlapping+disjoint keys, '
+        '%(global)s and system-variable references)} x {7 P-platform layer templates (absent, defined-but-empty, overlapping+disjoint '
+        'keys, '
         'override of a referenced key, DEFAULTS on the P layer, self references, PATH idiom)} x selection spelling '
         '{unset, "", none/NONE/None, environment/Environment/ENVIRONMENT, name lower/Mixed/UPPER, via %(variable)s} x '
         'interpreter {no, yes} (the via-variable spelling, and in quick the UPPER spelling of named environments, only '
         'without interpreter); definitions are spelled in rotating case. Two drivers (in-memory graph, on-disk '
         'package). Thorough adds 3+2 layer templates (empty DEFAULTS segments, reference chains, library-path idiom), '
         'a fourth launch environment, the flipped definition spellings and replicated (non-primitive) graphs for every '
-        'configuration (quick: replicated graphs for the rich launch environment with system variables only; the package '
-        'driver is run once per configuration because its system variables are chosen by the runtime, in quick without '
-        'the bare launch environment). '
+        'configuration (quick: replicated graphs for the configurations with system variables only; the package driver is '
+        'run once per configuration because its system variables are chosen by the runtime). '
+        'The special selections (unset/none/environment) are crossed with every layout of the default environment in both '
+        'tiers; the named-environment components with the layouts {undefined, on both with DEFAULTS} in quick and with '
+        'six of the ten layouts in thorough. In addition, within one document configuration all spellings of the same selection '
+        '(case variants, "" vs unset, via a variable) must give the same outcome - this also binds the cases where the '
+        'oracle accepts either of two outcomes. '
         'A case = (driver, document configuration, component); every case is non-trivial (its expected environment '
         'depends on at least the selection rule); distinct = distinct (driver, configuration, environment pair, '
         'selection spelling, interpreter). Excluded as grey: empty values, "$$", variable names that are not plain '
@@ -48,7 +53,11 @@ RULE = ('Exhaustive product of: platform {default,P} x package default environme
 ASSUMPTIONS = [
     'system variables are an input: Part A passes them as system_vars, Part B reads what the runtime chose from '
     'experimentGraph.configuration.system_vars (INSTANCE_DIR, FLOW_EXPERIMENT_NAME, FLOW_RUN_ID)',
-    'environment names are case-insensitive (docstring of environmentWithName, FlowIR.from_dict)',
+    'environment names are case-insensitive (docstring of environmentWithName, FlowIR.from_dict); therefore two '
+    'components of one package that differ only in the case of the selected name (or "" vs no selection, or a name '
+    'given through a variable) must get the same environment or both fail',
+    'an environment defined with an empty variable dictionary is defined (it contributes no variables); an '
+    'environment whose value is null is not in the alphabet',
     'the package default environment is the environment called "environment" that is visible on the selected platform '
     '(selected platform layered over default platform); one defined only for another platform does not count',
     'DEFAULTS semantics from the docstring of environmentWithName: NAME1:NAME2 imports the launch variables that '
@@ -99,6 +108,10 @@ def build_graph_package(doc, cfg, location):
     from verif.gen.pkg import experiment_from_doc
     exp = experiment_from_doc(doc, location, platform=cfg['platform'])
     return exp.experimentGraph
+
+
+def _driver(part, primitive):
+    return 'package' if part == 'B' else ('in-memory' if primitive else 'in-memory replicated-graph')
 
 
 def _clean(e):
@@ -194,14 +207,14 @@ def judge_one(col, part, cfg, comp, thorough, host, hosting, primitive=True):
         col.outcome(label)
         if exp.kind != 'error' and exp.grey:
             col.count('cases_with_leak_only_keys')
-        return True
+        return True, obs
     kinds, why = r
     sig = '%s:%s:%s:%s:%s' % (part, kinds, comp['kind'], where, cfg['platform'])
     col.outcome('FAIL:' + sig)
     name = 'environment' if comp['kind'] != 'named' else comp['selection']
     envs = all_environments(cfg, thorough)
     why_full = ('%s driver, platform %s, component selects %r%s (environment defined on: %s): %s'
-                % ('in-memory' if part == 'A' else 'package', cfg['platform'], comp['selection'],
+                % (_driver(part, primitive), cfg['platform'], comp['selection'],
                    ' +interpreter' if comp['interpreter'] else '', where, why))
     observed = {'result': list(obs), 'expected_kind': exp.kind, 'expected': exp.env, 'system': host.system,
                 'launch': launch, 'default_layer': O.lookup(envs, 'default', name) if comp['kind'] != 'none' else None,
@@ -216,34 +229,45 @@ def judge_one(col, part, cfg, comp, thorough, host, hosting, primitive=True):
             key = (sel_name, kinds, part, repr(sorted(cfg.items())), primitive)
             if key in seen or len(seen) >= 2:
                 col.count('failures_of_described_shape_not_recorded_individually')
-                return False
+                return False, obs
             seen.add(key)
             break
     col.fail(case, why_full, observed, sig=sig)
-    return False
+    return False, obs
 
 
 def expects_error(cfg, comp, thorough):
     return model_expected(cfg, comp, thorough, {}).kind == 'error'
 
 
-def run_config(col, part, cfg, thorough, scratch, primitive=True, only_component=None, hosting=None):
+def run_config(col, part, cfg, thorough, scratch, primitive=True, only=None, named=True):
+    """only: None, or {component name: hosting} to re-execute exactly those components (replay).
+    named: host the named-environment groups too (the quick tier does that for G.NAMED_LAYOUTS_QUICK only)."""
     launch = G.launch_of(cfg)
+    results = []
+
+    def judged(c, host, hosting):
+        ok, obs = judge_one(col, part, cfg, c, thorough, host, hosting, primitive)
+        results.append((c, hosting, ok, obs, dict(host.system)))
+
     with controlled_environ(launch):
-        for names, members in G.groups(thorough):
-            if only_component is not None and not any(c['name'] == only_component for c in members):
-                continue
+        for gkind, names, members in G.groups(thorough):
             shared = [c for c in members if not expects_error(cfg, c, thorough)]
             alone = [c for c in members if expects_error(cfg, c, thorough)]
-            if only_component is not None:
-                # replay of one case, hosted the way it was hosted when it failed
-                c = [x for x in members if x['name'] == only_component][0]
-                if hosting == 'shared':
+            if only is not None:
+                # replay: every requested component is hosted the way it was hosted when the case failed
+                wanted = [c for c in members if c['name'] in only]
+                if any(only[c['name']] == 'shared' for c in wanted):
                     host = Host(part, cfg, shared, thorough, names, scratch, primitive)
-                else:
-                    host = Host(part, cfg, [c], thorough, alone_only(c), scratch, primitive)
-                judge_one(col, part, cfg, c, thorough, host, hosting, primitive)
-                return
+                    for c in wanted:
+                        if only[c['name']] == 'shared':
+                            judged(c, host, 'shared')
+                for c in wanted:
+                    if only[c['name']] != 'shared':
+                        judged(c, Host(part, cfg, [c], thorough, alone_only(c), scratch, primitive), 'alone')
+                continue
+            if gkind == 'named' and not named:
+                continue
             if shared:
                 host = Host(part, cfg, shared, thorough, names, scratch, primitive)
                 if host.error:
@@ -253,10 +277,62 @@ def run_config(col, part, cfg, thorough, scratch, primitive=True, only_component
                     alone = members
                 else:
                     for c in shared:
-                        judge_one(col, part, cfg, c, thorough, host, 'shared', primitive)
+                        judged(c, host, 'shared')
             for c in alone:
-                host = Host(part, cfg, [c], thorough, alone_only(c), scratch, primitive)
-                judge_one(col, part, cfg, c, thorough, host, 'alone', primitive)
+                judged(c, Host(part, cfg, [c], thorough, alone_only(c), scratch, primitive), 'alone')
+    spelling_consistency(col, part, cfg, thorough, primitive, results)
+
+
+def _normalised(part, obs, system):
+    """Observation with the run-specific values of the runtime's system variables replaced by their names."""
+    if obs[0] == 'error':
+        return ('error',)
+    env = dict(obs[1])
+    env.pop(O.DEFAULTS_KEY, None)
+    if part == 'B':
+        vals = sorted(((v, k) for k, v in system.items() if v), key=lambda x: -len(x[0]))
+        out = {}
+        for k, v in env.items():
+            if isinstance(v, str):
+                for val, name in vals:
+                    v = v.replace(val, '<%s>' % name)
+            out[k] = v
+        env = out
+    return ('env', env)
+
+
+def spelling_consistency(col, part, cfg, thorough, primitive, results):
+    """Environment names are case-insensitive, '' selects nothing just like an absent selection, and a name given
+    through a component variable is the name: components of one document configuration that select the same thing
+    in different spellings must get the same outcome (same environment, or all fail). This also binds the cases in
+    which the oracle accepts either of two outcomes. Only components that passed their own judgement are compared
+    (a wrong environment is reported once, by the oracle)."""
+    by_key = {}
+    for c, hosting, ok, obs, system in results:
+        by_key.setdefault((c['kind'], (c['selection'] or '').lower(), c['interpreter']), []).append(
+            (c, hosting, ok, obs, system))
+    for key, rs in sorted(by_key.items(), key=lambda kv: kv[0]):
+        if len(rs) < 2 or not all(r[2] for r in rs):
+            continue
+        ref = rs[0]
+        ref_n = _normalised(part, ref[3], ref[4])
+        for c, hosting, ok, obs, system in rs[1:]:
+            n = _normalised(part, obs, system)
+            col.evaluated()
+            col.nontriv([part, cfg, 'same-selection', ref[0]['name'], c['name'], primitive])
+            col.count('spelling_pairs_compared')
+            if n == ref_n:
+                continue
+            where = where_defined(cfg, c, thorough)
+            sig = '%s:spelling-dependent:%s:%s:%s' % (part, c['kind'], where, cfg['platform'])
+            col.outcome('FAIL:' + sig)
+            show = lambda x: 'fails' if x[0] == 'error' else 'gives %r' % (x[1],)
+            col.fail({'part': part, 'cfg': cfg, 'component': c, 'hosting': hosting, 'peer': ref[0],
+                      'peer_hosting': ref[1], 'thorough': thorough, 'primitive': primitive},
+                     '%s driver, platform %s (environment defined on: %s): selecting %r%s %s but selecting %r %s'
+                     % (_driver(part, primitive), cfg['platform'], where, ref[0]['selection'],
+                        ' (via a variable)' if ref[0]['via_var'] else '', show(ref_n), c['selection'], show(n)),
+                     {'result': list(n), 'peer_result': list(ref_n), 'launch': G.launch_of(cfg)}, sig=sig)
 
 
 def alone_only(c):
@@ -269,8 +345,9 @@ def worker(col, item, tier, seed):
     part, cfg, primitive = item
     thorough = tier == 'thorough'
     with scratch_dir('c17-') as d:
-        run_config(col, part, cfg, thorough, d, primitive)
-    if cfg['launch'] == 'rich' and cfg['default_env'] == 'def-both' and cfg['system'] == 'sys':
+        run_config(col, part, cfg, thorough, d, primitive,
+                   named=cfg['default_env'] in (G.NAMED_LAYOUTS_THOROUGH if thorough else G.NAMED_LAYOUTS_QUICK))
+    if cfg['launch'] == 'rich' and cfg['default_env'] == 'def-both-imports' and cfg['system'] == 'sys':
         comps = G.components(thorough)
         c = comps[len(comps) // 2]
         col.sample({'part': part, 'cfg': cfg, 'component': c,
@@ -281,11 +358,10 @@ def run(ctx):
     items = []
     for cfg in G.doc_configs(ctx.thorough):
         items.append(('A', cfg, True))
-        if cfg['system'] == 'sys' and (ctx.thorough or cfg['launch'] != 'bare'):
-            # the package driver gets its system variables from the runtime: cfg['system'] is only a label there;
-            # it is the most expensive driver, the quick tier leaves its 'bare' launch environment to thorough
+        if cfg['system'] == 'sys':
+            # the package driver gets its system variables from the runtime: cfg['system'] is only a label there
             items.append(('B', cfg, True))
-        if (ctx.thorough and cfg['flip'] == 0) or (cfg['launch'] == 'rich' and cfg['system'] == 'sys'):
+        if (ctx.thorough and cfg['flip'] == 0) or cfg['system'] == 'sys':
             # replicated (non-primitive) graph, the one the runtime executes
             items.append(('A', cfg, False))
     ctx.count('documents_configurations', len(items))
@@ -295,9 +371,11 @@ def run(ctx):
 
 def replay(ctx, case):
     from verif.gen.pkg import scratch_dir
+    only = {case['component']['name']: case['hosting']}
+    if case.get('peer'):
+        only[case['peer']['name']] = case['peer_hosting']
     with scratch_dir('c17-') as d:
-        run_config(ctx, case['part'], case['cfg'], bool(case['thorough']), d, case.get('primitive', True),
-                   only_component=case['component']['name'], hosting=case['hosting'])
+        run_config(ctx, case['part'], case['cfg'], bool(case['thorough']), d, case.get('primitive', True), only=only)
 
 
 # ------------------------------------------------------------------------------------------------ known findings
